@@ -155,17 +155,21 @@ def place (g : Grid) (col row : Int) (r0 : Bool) (cell : Cell) : Outcome Grid :=
       let cells2 := if r0 then cells1.set ci cell else cells1
       .ok (g.set ri { rw with cells := cells2 })
 
-/-- loop of `checkSheetR0` over a snapshot of the row's cells -/
-def r0Pass (g : Grid) (rowR : Int) (r0 : Bool) : List Cell → Nat → Outcome Grid
-  | [], _ => .ok g
-  | cell :: rest, i =>
+/-- loop of `checkSheetR0` over a snapshot of the row's cells; `prev` is `prevCol`: in a row without
+row number a cell without reference follows the cell before it (`prev + 1`), in a numbered row it sits
+at its ordinal -/
+def r0Pass (g : Grid) (rowR : Int) (r0 : Bool) : List Cell → Nat → Int → Outcome Grid
+  | [], _, _ => .ok g
+  | cell :: rest, i, prev =>
     match cell.r with
-    | .absent => (place g ((i : Int) + 1) rowR r0 cell).bind fun g' => r0Pass g' rowR r0 rest (i + 1)
+    | .absent =>
+      (place g (if r0 then prev + 1 else (i : Int) + 1) rowR r0 cell).bind fun g' =>
+        r0Pass g' rowR r0 rest (i + 1) (if r0 then prev + 1 else (i : Int) + 1)
     | rr =>
       match rr.coords with
-      | some (c, r) => if r0 then (place g c r r0 cell).bind fun g' => r0Pass g' rowR r0 rest (i + 1)
-                       else r0Pass g rowR r0 rest (i + 1)
-      | none => r0Pass g rowR r0 rest (i + 1)
+      | some (c, r) => if r0 then (place g c r r0 cell).bind fun g' => r0Pass g' rowR r0 rest (i + 1) c
+                       else r0Pass g rowR r0 rest (i + 1) c
+      | none => r0Pass g rowR r0 rest (i + 1) prev
 
 /-- second loop of `checkSheet`: `sheetData.Row[r.R-1] = r; row = r.R` -/
 def placeRows : Grid → Int → List Row → Outcome (Grid × Int)
@@ -185,7 +189,7 @@ def r0Rows : Grid → List Row → Outcome Grid
     | none => .panic
     | some i =>
       let g1 := g.set i { (g.getD i emptyRow) with r := r.r }
-      (r0Pass g1 r.r true r.cells 0).bind fun g2 => r0Rows g2 rest
+      (r0Pass g1 r.r true r.cells 0 0).bind fun g2 => r0Rows g2 rest
 
 /-- fourth loop: `for i := 1; i <= row; i++` (counting `k = row - i + 1` down) -/
 def fillRows : Grid → Nat → Nat → Outcome Grid
@@ -196,7 +200,7 @@ def fillRows : Grid → Nat → Nat → Outcome Grid
     | some j =>
       let rw := { (g.getD j emptyRow) with r := (i : Int) }
       let g1 := g.set j rw
-      (r0Pass g1 (i : Int) false rw.cells 0).bind fun g2 => fillRows g2 (i + 1) k
+      (r0Pass g1 (i : Int) false rw.cells 0 0).bind fun g2 => fillRows g2 (i + 1) k
 
 /-- `checkSheet` (with the row-number guards of the loader) -/
 def checkSheet (rows : List Row) : Outcome Grid :=
